@@ -106,7 +106,7 @@ def register(db):
                 result_fields={"event": "self.stop_consume_event"}, note="lazily created task waiting on stop_consume_event")
     db.define("n_reject(tr)", "sum([1 for e in tr if e[0] == 'reject'])")
     db.contract(
-        fn=R + "_process_with_event", serves=["C02", "C03"],
+        fn=R + "_process_with_event", serves=["C02", "C03", "C13"],
         ghost_init={"trace": "events", "proc_disposed": "bool", "proc_done": "bool", "proc_cancelled": "bool"},
         requires=["not ghost.proc_cancelled"],
         shared=["ghost.proc_disposed", "ghost.proc_done", "self.cancel_event._flag"],
